@@ -38,6 +38,11 @@ def strategy(tier):
         recycle_caller=st.sampled_from([None, None, None, "later", "later-zombie"]),
         vanish=st.lists(st.tuples(st.integers(0, n - 1), st.integers(0, 500)),
                         max_size=2),
+        # the process_iter() cache is primed, then some other PIDs are
+        # recycled (new parent, new start time) before the tree is queried
+        prime=st.booleans(),
+        recycle_after=st.lists(st.tuples(st.integers(0, n - 1), st.integers(0, n + 1),
+                                         st.integers(0, 1000)), max_size=3),
     )))
 
 
@@ -150,7 +155,7 @@ def shape_labels(rows, me):
     return labels
 
 
-def check_table(rows, me, recycle=None, vanish=()):
+def check_table(rows, me, recycle=None, vanish=(), prime=False, recycle_after=()):
     import psutil
 
     k = build(rows)
@@ -169,6 +174,22 @@ def check_table(rows, me, recycle=None, vanish=()):
     with simk.installed(k):
         k.access_hook = guard
         p = psutil.Process(me)
+        if prime:
+            guard.base = len(k.log)
+            list(psutil.process_iter())
+            labels.add("cache-primed")
+        if recycle_after:
+            new_rows = list(rows)
+            for idx, (pid, ppid, start) in recycle_after:
+                k.vanish(pid)
+                k.spawn(pid, comm=b"r%d" % pid, ppid=ppid, starttime=start * 7 + 3)
+                new_rows[idx] = (pid, ppid, start, False)
+            rows = new_rows
+            by = {r[0]: r for r in rows}
+            lowest = min(by)
+            direct, lower, upper, par, chain, cyclic = model(rows, me)
+            labels |= shape_labels(rows, me)
+            labels.add("others-recycled-after-priming" if prime else "others-recycled")
         if recycle:
             old = k.procs[me]
             z = recycle == "later-zombie"
@@ -231,6 +252,12 @@ def check_table(rows, me, recycle=None, vanish=()):
     got = [c.pid for c in out["children"][1]]
     if sorted(got) != direct:
         raise Violation("children", f"{sorted(got)} expected {direct}; {ctx}")
+    # the returned objects must be the processes that are listed NOW
+    with simk.installed(k, reset=False):
+        for c in list(out["children"][1]) + list(out["children_recursive"][1]):
+            if c.pid in k.procs and c != psutil.Process(c.pid):
+                raise Violation("children-stale-object",
+                                f"children() returned an object for a previous owner of pid {c.pid}; {ctx}")
     got = [c.pid for c in out["children_recursive"][1]]
     if len(got) != len(set(got)):
         raise Violation("children-recursive-duplicates", f"{got}; {ctx}")
@@ -281,7 +308,18 @@ def run_case(case):
     rows = make_table(case)
     me = rows[case["caller"]][0]
     vanish = [(rows[i][0], kk) for i, kk in case["vanish"] if rows[i][0] != me]
-    labels = check_table(rows, me, case["recycle_caller"], vanish)
+    n = len(rows)
+    pids = [r[0] for r in rows]
+    rec = []
+    seen_idx = set()
+    for idx, pj, start in case.get("recycle_after", []):
+        if rows[idx][0] == me or idx in seen_idx:
+            continue
+        seen_idx.add(idx)
+        pp = pids[pj] if pj < n else (99999 if pj == n else 0)
+        rec.append((idx, (rows[idx][0], pp, start)))
+    labels = check_table(rows, me, case["recycle_caller"], vanish if not rec else (),
+                         prime=case.get("prime", False), recycle_after=rec)
     key = labels & {"self-loop", "unlisted-parent", "older-child", "cycle2", "cycle3",
                     "cycle4", "caller-recycled", "vanish-during-walk", "start-ties"}
     nontrivial = None
